@@ -34,6 +34,17 @@ CHECKS = {
   note="trusted: the frozen cache table (payload -> tag) in sa/props/c10.py; anchors re-resolved on every run, a "
        "vanished field is exit 2",
   technique="static analysis: typestate dataflow over the CFG (cache coherence), must-pass-through and who-may-write rules on LLVM IR"),
+ "C14": dict(
+  text="Static effect-ordering rules over the image writer with a may-write-output effect summary (calls through "
+       "sqfs_file_t.write_at/.truncate and sqfs_ostream_t.append, resolved through function-pointer slots and "
+       "type-directed sqfs_drop): provisional superblock constants (K12) and the init->write window, single final "
+       "sqfs_super_write dominating the success return with no non-appending output after it (K11), who-may-call "
+       "sqfs_super_write / write at offset 0 (K2), readers reject the provisional state (K1), packers write nothing "
+       "after finish (K11). Quantifies over all paths = all crash points between two issued writes for the ordering "
+       "clause; does not decide which bytes the kernel has flushed.",
+  note="trusted: slot resolution (an unresolved indirect call that a rule needs is exit 2); the list of output slots "
+       "in sa/effects.py",
+  technique="static analysis: effect summaries + dominance/reachability (must-precede) rules on LLVM IR"),
 }
 
 NA_DEFAULT = "rules designed in DESIGN.md, not implemented yet (work in progress)"
